@@ -170,23 +170,18 @@ def _val(v):
     return v.get('data')
 
 def flatten_cx(vals):
-    """collapse 'cx_buf[3]'-style entries into lists / nested dicts keyed by the base name"""
+    """collapse 'cx_buf[3]'-style entries (trace order) into lists keyed by the base name"""
     out = {}
     for k, v in vals.items():
         m = re.fullmatch(r'(\w+)\[(\d+)l?\]', k)
         if m:
-            lst = out.setdefault(m.group(1), {})
-            if isinstance(lst, dict): lst[int(m.group(2))] = v
-        elif re.fullmatch(r'\w+', k):
-            if isinstance(v, list) and isinstance(out.get(k), dict):
-                pass
-            out[k] = v if not isinstance(out.get(k), dict) or not isinstance(v, list) else v
+            base, i = m.group(1), int(m.group(2))
+            cur = out.get(base)
+            if not isinstance(cur, list): cur = out[base] = []
+            while len(cur) <= i: cur.append(0)
+            cur[i] = v
         else:
             out[k] = v
-    for k, v in list(out.items()):
-        if isinstance(v, dict) and v and all(isinstance(i, int) for i in v):
-            n = max(v) + 1
-            out[k] = [v.get(i, 0) for i in range(n)]
     return out
 
 class Ctx:
@@ -399,3 +394,15 @@ def known_findings(pid):
     p = os.path.join(VERIF, 'known_findings.json')
     if not os.path.exists(p): return []
     return [e for e in json.load(open(p)).get('findings', []) if e.get('property') == pid]
+
+def announce_known(ctx, kf, replay):
+    """for each committed known finding: confirm its witness still fails on the real code, then announce it"""
+    for e in kf:
+        if e.get('status') != 'known': continue
+        try: ok, what = replay(ctx, e['witness'], None)
+        except Broken as ex: ok, what = False, str(ex)[:200]
+        if ok: ctx.known_finding(e['what'])
+        else: ctx.say('note: known finding no longer reproduces on this tree (%s): %s' % (what, e['what']))
+
+def kf_defines(kf):
+    return [e['define'] for e in kf if e.get('status') == 'known' and e.get('define')]
